@@ -123,20 +123,40 @@ impl Exec {
         let fuse_armed = obs::trace_fuse() > 0;
         let ev0 = obs::events_len();
         obs::set_quiet_panics(true);
+        if let Some(k) = self.pending_sweep_fuse.take() {
+            obs::arm_drop_fuse(k);
+        }
         let res = {
             let _c = CtxScope::enter(Ctx::Collect);
             catch_unwind(AssertUnwindSafe(|| call_api(&mut arena, api)))
         };
+        let drop_fired = obs::disarm_drop_fuse();
         obs::set_quiet_panics(false);
         let what = format!("{label} {}(arena {ai}) from phase {ph0}", api.name());
         let (ret_some, panicked) = match res {
-            Ok(b) => (b, false),
+            Ok(b) => {
+                if let Some(id) = drop_fired {
+                    self.violate("C04", "drop-panic-swallowed", format!("{label} {}(arena {ai}): the destructor of object {id} panicked but the call returned normally", api.name()));
+                }
+                (b, false)
+            }
             Err(p) => {
                 let msg = obs::panic_message(&*p);
                 if msg == obs::TRACE_PANIC {
                     self.fault_injected = true;
                     self.cov.faults_trace += 1;
                     *self.cov.fault_cells.entry((0, ph0)).or_insert(0) += 1;
+                } else if msg == obs::DROP_PANIC && drop_fired.is_some() {
+                    // the collector unlinks (or marks as destructed) before it runs a destructor: the
+                    // value counts as destructed, its block may stay allocated for ever
+                    self.fault_injected = true;
+                    self.cov.sweep_drop_faults += 1;
+                    let id = drop_fired.unwrap();
+                    obs::untracked(|| {
+                        if let Some(o) = self.model.objs.iter_mut().find(|o| o.id == id && o.arena == a8) {
+                            o.fault_exempt = true;
+                        }
+                    });
                 } else if msg.contains("attempt to") {
                     self.violate("C10", "arithmetic-panic", format!("{what}: {msg}"));
                 } else {
@@ -925,18 +945,19 @@ impl Exec {
     /// cannot switch the tag in the middle of an unwind); they are legitimate teardown.
     fn retag_failed_ctor_events(&mut self, _ev0: usize) {}
 
+    /// Values whose destructor was made to unwind (`fault_exempt`) may keep their block and stay
+    /// counted; everything else must be gone.
     fn after_arena_gone(&mut self, ai: usize, what: &str, prop: &'static str) {
-        self.after_arena_gone_allowing(ai, what, prop, 0)
-    }
-
-    /// `leaked`: number of values whose destructor unwound during teardown (they keep their block and
-    /// stay counted).
-    fn after_arena_gone_allowing(&mut self, ai: usize, what: &str, prop: &'static str, leaked: usize) {
         let a8 = ai as u8;
         let objs: Vec<MObj> = self.model.objs.iter().filter(|o| o.arena == a8).cloned().collect();
+        let mut leaked = 0usize;
         for o in objs {
             if o.status != Status::Released {
-                self.violate(prop_or(prop, "C04"), "not-released-at-drop", format!("{what}: object {} ({:?}) was not released (status {:?})", o.id, o.kind, o.status));
+                if o.fault_exempt && o.status == Status::Destructed {
+                    leaked += 1;
+                } else {
+                    self.violate(prop_or(prop, "C04"), "not-released-at-drop", format!("{what}: object {} ({:?}) was not released (status {:?})", o.id, o.kind, o.status));
+                }
             }
             if o.kind.has_tok() && o.drops != 1 {
                 self.violate(prop_or(prop, "C04"), "drop-count", format!("{what}: object {} ({:?}) destructed {} times", o.id, o.kind, o.drops));
@@ -945,6 +966,7 @@ impl Exec {
                 self.violate(prop_or(prop, "C04"), "double-free", format!("{what}: object {} released {} times", o.id, o.frees));
             }
         }
+        self.leaked_by_fault += leaked;
         if let Some(m) = self.metrics[ai].as_ref() {
             let c = m.total_gc_count();
             if c != leaked {
@@ -963,10 +985,12 @@ impl Exec {
         }
         let others = self.snapshot_others(ai);
         let ev0 = obs::events_len();
-        let fuse = self.pending_drop_fuse.take();
-        let what = match fuse {
-            Some(k) => format!("drop(arena {ai}) in phase {ph0} with destructor panic #{k}"),
-            None => format!("drop(arena {ai}) in phase {ph0}"),
+        let unwinding = self.drop_unwinding;
+        let fuse = if unwinding { None } else { self.pending_drop_fuse.take() };
+        let what = match (fuse, unwinding) {
+            (Some(k), _) => format!("drop(arena {ai}) in phase {ph0} with destructor panic #{k}"),
+            (None, true) => format!("drop(arena {ai}) in phase {ph0} while unwinding from an unrelated panic"),
+            (None, false) => format!("drop(arena {ai}) in phase {ph0}"),
         };
         obs::set_quiet_panics(true);
         if let Some(k) = fuse {
@@ -974,7 +998,20 @@ impl Exec {
         }
         let res = {
             let _c = CtxScope::enter(Ctx::ArenaDrop);
-            catch_unwind(AssertUnwindSafe(move || drop(arena)))
+            if unwinding {
+                self.cov.arena_drops_unwinding += 1;
+                let r = catch_unwind(AssertUnwindSafe(move || {
+                    let _owned = arena;
+                    std::panic::panic_any(obs::CALLBACK_PANIC);
+                }));
+                match r {
+                    Err(p) if obs::panic_message(&*p) == obs::CALLBACK_PANIC => Ok(()),
+                    Err(p) => Err(p),
+                    Ok(()) => Ok(()),
+                }
+            } else {
+                catch_unwind(AssertUnwindSafe(move || drop(arena)))
+            }
         };
         let fired = obs::disarm_drop_fuse();
         obs::set_quiet_panics(false);
@@ -990,20 +1027,14 @@ impl Exec {
         self.model.arenas[ai].alive = false;
         // the one value whose destructor unwound keeps its block (the teardown resumes behind it); every
         // other value is still destructed exactly once and released
-        let mut leaked = 0;
         if let Some(id) = fired {
             obs::untracked(|| {
                 if let Some(o) = self.model.objs.iter_mut().find(|o| o.id == id && o.arena == ai as u8) {
-                    if o.status == Status::Destructed {
-                        o.status = Status::Released;
-                        o.frees += 1;
-                        leaked = 1;
-                        self.leaked_by_fault += 1;
-                    }
+                    o.fault_exempt = true;
                 }
             });
         }
-        self.after_arena_gone_allowing(ai, &what, "C04", leaked);
+        self.after_arena_gone(ai, &what, "C04");
         self.check_others(&others, ai, &what);
     }
 
@@ -1243,6 +1274,8 @@ impl Exec {
                 match o.status {
                     Status::Released => {}
                     Status::Live => self.violate("C02", "unreachable-not-collected", format!("settle(arena {ai}): unreachable object {} ({:?}) was neither destructed nor released", o.id, o.kind)),
+                    // a value whose destructor was made to unwind may stay allocated (and counted) for ever
+                    Status::Destructed if o.fault_exempt => expect += 1,
                     Status::Destructed => self.violate("C02", "shell-not-released", format!("settle(arena {ai}): shell of object {} is referred to by no reachable weak pointer but was not released", o.id)),
                 }
             }
@@ -1378,6 +1411,18 @@ impl Exec {
             Step::ArmDropPanic { k } => {
                 if !self.opts.c09 {
                     self.pending_drop_fuse = Some(*k as u32 % 24 + 1);
+                }
+            }
+            Step::ArmSweepPanic { k } => {
+                if !self.opts.c09 {
+                    self.pending_sweep_fuse = Some(*k as u32 % 12 + 1);
+                }
+            }
+            Step::DropArenaUnwinding { arena } => {
+                if let Some(ai) = self.arena_ix(*arena) {
+                    self.drop_unwinding = true;
+                    self.drop_arena_step(ai);
+                    self.drop_unwinding = false;
                 }
             }
             Step::NewArena { preset, fallible, outcome, ops } => self.new_arena_step(*preset, *fallible, *outcome, ops),
